@@ -415,16 +415,18 @@ func unmarshalStructWithMap[T any](data []byte, v *T, mapField string) error {
 	// So if there are keys that are not exactly field names, hide them from
 	// the struct decoder.
 	structData := data
-	var raw map[string]json.RawMessage
+	var raw, unknown map[string]json.RawMessage
 	if err := json.Unmarshal(data, &raw); err == nil {
-		filtered := false
-		for k := range raw {
+		for k, rv := range raw {
 			if !names[k] {
+				if unknown == nil {
+					unknown = map[string]json.RawMessage{}
+				}
+				unknown[k] = rv
 				delete(raw, k)
-				filtered = true
 			}
 		}
-		if filtered {
+		if unknown != nil {
 			structData, err = json.Marshal(raw)
 			if err != nil {
 				return err
@@ -435,19 +437,36 @@ func unmarshalStructWithMap[T any](data []byte, v *T, mapField string) error {
 	if err := json.Unmarshal(structData, v); err != nil {
 		return err
 	}
-	// Unmarshal into the map.
-	m := map[string]any{}
-	if err := json.Unmarshal(data, &m); err != nil {
-		return err
-	}
-	// Delete from the map the fields of the struct.
-	for n := range names {
-		delete(m, n)
-	}
-	if len(m) != 0 {
+	// Unmarshal the other keys into the map.
+	if len(unknown) != 0 {
+		m := make(map[string]any, len(unknown))
+		for k, rv := range unknown {
+			x, err := unmarshalAny(rv)
+			if err != nil {
+				return err
+			}
+			m[k] = x
+		}
 		reflect.ValueOf(v).Elem().FieldByName(mapField).Set(reflect.ValueOf(m))
 	}
 	return nil
+}
+
+// unmarshalAny decodes a JSON value of any shape.
+// A number that a float64 cannot hold does not make it fail: a value that
+// contains one is decoded with json.Number instead, so it marshals back unchanged.
+func unmarshalAny(data []byte) (any, error) {
+	var x any
+	err := json.Unmarshal(data, &x)
+	if err == nil {
+		return x, nil
+	}
+	dec := json.NewDecoder(bytes.NewReader(data))
+	dec.UseNumber()
+	if dec.Decode(&x) != nil {
+		return nil, err
+	}
+	return x, nil
 }
 
 var jsonNamesMap sync.Map // from reflect.Type to map[string]bool
